@@ -208,6 +208,56 @@ func floatCandidates(c *Case) []string {
 	return out
 }
 
+// asciiLower is the model's built-in approximation of strings.ToLower
+func asciiLower(s string) string {
+	b := []byte(s)
+	for i, c := range b {
+		if 'A' <= c && c <= 'Z' {
+			b[i] = c + 32
+		}
+	}
+	return string(b)
+}
+
+// lowerCandidates lists (key, strings.ToLower(key)) for every map key the model may ask about
+// (any substring of an argument that ends before an `=` or at the end) on which strings.ToLower is not
+// plain ASCII lowering: strings.ToLower is a parameter of the model, its graph is supplied here.
+func lowerCandidates(c *Case) [][2]string {
+	hasMapKeys := false
+	for _, op := range c.Script {
+		if op.Op == "mapkeys" {
+			hasMapKeys = true
+		}
+	}
+	if !hasMapKeys {
+		return nil
+	}
+	seen := map[string]bool{}
+	add := func(s string) {
+		for i := 0; i <= len(s); i++ {
+			sub := s[i:]
+			if j := strings.Index(sub, "="); j >= 0 {
+				sub = sub[:j]
+			}
+			seen[sub] = true
+		}
+	}
+	for _, a := range c.Args {
+		add(a)
+	}
+	for _, e := range c.Env {
+		add(e.V)
+	}
+	var out [][2]string
+	for k := range seen {
+		if l := strings.ToLower(k); l != asciiLower(k) {
+			out = append(out, [2]string{k, l})
+		}
+	}
+	sort.Slice(out, func(i, j int) bool { return out[i][0] < out[j][0] })
+	return out
+}
+
 // protocol lines of a case, up to and including the run requests
 func (c *Case) lines() []string {
 	out := []string{fmt.Sprintf("case %d", c.ID)}
@@ -219,6 +269,13 @@ func (c *Case) lines() []string {
 		l := "fok"
 		for _, s := range f {
 			l += " " + hx(s)
+		}
+		out = append(out, l)
+	}
+	if lc := lowerCandidates(c); len(lc) > 0 {
+		l := "low"
+		for _, kv := range lc {
+			l += " " + hx(kv[0]) + " " + hx(kv[1])
 		}
 		out = append(out, l)
 	}
